@@ -313,6 +313,48 @@ def invalid_cases():
 ALL_OPTS = sorted(OPTION_OF.values())
 
 
+def respell(spec):
+    """An equivalent notation of an opaque colour specification."""
+    if spec is None:
+        return None
+    r, g, b = colors.rgba_of(spec)[:3]
+    if isinstance(spec, str) and not spec.startswith('#'):
+        return '#%02x%02x%02x' % (r, g, b)
+    if isinstance(spec, list):
+        return '#%02X%02X%02X' % (r, g, b)
+    if len(spec) == 4:
+        return '#%s%s%s' % tuple(c * 2 for c in spec[1:])
+    for name, val in colors.NAMED.items():
+        if val == (r, g, b):
+            return name.upper()
+    return [r, g, b]
+
+
+def option_grid():
+    """Every per-type option alone (and together with dark / light) x border {0, default} x kind."""
+    cases = []
+    syms = [{'content': enc_content('12345'), 'kw': {'version': 2, 'mask': 1}}, {'content': enc_content('7'), 'kw': {'version': 7, 'mask': 3}},
+            {'content': enc_content('1'), 'kw': {'version': 'M3', 'mask': 0}}]
+    for si, sym in enumerate(syms):
+        for opt in ALL_OPTS:
+            for border in (0, None):
+                for kind in ('png', 'svg', 'ppm'):
+                    for variant in range(3):
+                        opts = {opt: ('#ff0000', 'blue', [0, 128, 0])[variant]}
+                        if variant == 1:
+                            opts.update(dark='#101010', light='#eeeeee')
+                        elif variant == 2:
+                            # the same colour as the default of the tone in another notation
+                            opts = {opt: 'black' if opt.endswith('_dark') or opt == 'dark_module' else 'WHITE', 'light': '#fff', 'dark': '#000000'}
+                        if border is not None:
+                            opts['border'] = border
+                        opts['scale'] = 1 if si != 1 else 1
+                        if (si + variant) % 2 and kind != 'ppm':
+                            opts['scale'] = 2
+                        cases.append({'what': 'colourful', 'sym': sym, 'kind': kind, 'opts': opts})
+    return cases
+
+
 @st.composite
 def colourful_cases(draw):
     sym, v = draw(symbols())
@@ -334,6 +376,8 @@ def colourful_cases(draw):
     opts = {}
     for name in chosen:
         opts[name] = draw(st.sampled_from(pool)) if draw(st.integers(0, 2)) else draw(colour)
+        if draw(st.integers(0, 3)) == 0 and opts[name] is not None and colors.rgba_of(opts[name])[3] == 255:
+            opts[name] = respell(opts[name])  # the same colour in another notation
     if draw(st.integers(0, 9)) < 5:
         opts['dark'] = draw(st.sampled_from(pool)) if draw(st.booleans()) else draw(colour)
     if draw(st.integers(0, 9)) < 5:
@@ -363,5 +407,7 @@ def phases(tier, seed):
         Enum('all-positions', lambda: iter_cases(tier), exhaustive=True,
              note='every module position of all 44 symbol sizes x border x scale, plain and verbose iteration'),
         Enum('invalid-arguments', invalid_cases, exhaustive=True),
+        Enum('single-option-grid', option_grid, exhaustive=True,
+             note='each of the 15 per-type options alone / with dark+light / in another notation x border {0, default} x png, svg, ppm x 3 symbols'),
         Search('colourful', colourful_cases(), n),
     ]
